@@ -41,7 +41,7 @@ pvars == <<cfg, clk, now, pctx, prt, epoch, inst, calls, snapw, chs, credit, cre
            ctxTouch, status, cbseen, boReset, td, bad>>
 
 PInitCfg(variant, retry) ==
-    /\ cfg = [variant |-> variant, retry |-> retry] /\ clk = 0 /\ now = 0 /\ pctx = 0 /\ prt = 0 /\ epoch = 0
+    /\ cfg = [variant |-> variant, retry |-> retry, burst |-> FALSE] /\ clk = 0 /\ now = 0 /\ pctx = 0 /\ prt = 0 /\ epoch = 0
     /\ inst = <<>> /\ calls = <<>> /\ snapw = <<>> /\ chs = <<>>
     /\ credit = 0 /\ creditR = 0 /\ needEnter = 0 /\ ctxTouch = 0 /\ status = 0 /\ cbseen = {} /\ boReset = 0
     /\ td = FALSE /\ bad = {}
@@ -49,7 +49,7 @@ PInitCfg(variant, retry) ==
 PInit == PInitCfg("plain", FALSE)
 
 PReset ==
-    /\ cfg' = [variant |-> "plain", retry |-> FALSE] /\ clk' = 0 /\ now' = 0 /\ pctx' = 0 /\ prt' = 0 /\ epoch' = 0
+    /\ cfg' = [variant |-> "plain", retry |-> FALSE, burst |-> FALSE] /\ clk' = 0 /\ now' = 0 /\ pctx' = 0 /\ prt' = 0 /\ epoch' = 0
     /\ inst' = <<>> /\ calls' = <<>> /\ snapw' = <<>> /\ chs' = <<>>
     /\ credit' = 0 /\ creditR' = 0 /\ needEnter' = 0 /\ ctxTouch' = 0 /\ status' = 0 /\ cbseen' = {} /\ boReset' = 0
     /\ td' = FALSE /\ bad' = {}
@@ -81,7 +81,7 @@ Refresh(cs, c, r, s) ==
 \* section may already have run: the new instance can enter before the caller logs the return)
 PendingRerun(withCtx) ==
     \E id \in DOMAIN calls : ~calls[id].done /\
-        (calls[id].op \in {"setroutine", "setstate", "restart"} \/ (withCtx /\ calls[id].op = "setctx" /\ calls[id].r))
+        (calls[id].op \in {"setroutine", "setstate", "setsr", "restart"} \/ (withCtx /\ calls[id].op = "setctx" /\ calls[id].r))
 
 Tick == clk' = clk + 1
 
@@ -90,8 +90,10 @@ ErrName(i) == IF inst[i].out = "ok" THEN "nil" ELSE IF inst[i].out = "err" THEN 
 -----------------------------------------------------------------------------
 (* Events.  Every operator specifies all of pvars. *)
 
-PConfig(variant, retry) ==
-    /\ cfg' = [variant |-> variant, retry |-> retry]
+\* burst: the clients ran freely in parallel (mode M2): the order of the logged returns is not
+\* the order of the critical sections, so only order-insensitive conditions are judged
+PConfig(variant, retry, burst) ==
+    /\ cfg' = [variant |-> variant, retry |-> retry, burst |-> burst]
     /\ Tick
     /\ UNCHANGED <<now, pctx, prt, epoch, inst, calls, snapw, chs, credit, creditR, needEnter, ctxTouch, status, cbseen, boReset, td, bad>>
 
@@ -116,7 +118,7 @@ PCall(e) ==
 
 \* did the call (by its result) supersede the running instance?
 Superseded(c, e) ==
-    CASE c.op = "setroutine" -> TRUE
+    CASE c.op \in {"setroutine", "setsr"} -> TRUE
       [] c.op = "setstate"   -> e.changed
       [] c.op = "restart"    -> e.ok
       [] c.op \in {"setctx", "clearctx"} -> e.changed
@@ -127,7 +129,8 @@ PRet(e) ==
     IF c.op = "waitexited"
     THEN /\ calls' = [calls EXCEPT ![e.id].done = TRUE]
          /\ bad' = bad \cup
-              (IF e.res = "canceled" THEN (IF c.canc THEN {} ELSE {"WaitWrong"})
+              (IF cfg.burst THEN {}
+               ELSE IF e.res = "canceled" THEN (IF c.canc THEN {} ELSE {"WaitWrong"})
                ELSE IF e.res = "nil" THEN (IF c.nilok THEN {} ELSE {"WaitWrong"})
                ELSE IF \E i \in c.errok : e.res = ErrName(i) THEN {} ELSE {"WaitWrong"})
          /\ Tick
@@ -137,14 +140,14 @@ PRet(e) ==
         pctx2 == IF c.op \in {"setctx", "clearctx"} THEN c.c ELSE pctx
         prt2 == IF c.op = "setroutine" THEN c.k
                 ELSE IF c.op = "setstate" /\ e.changed THEN c.k ELSE prt
-        rerun == \/ c.op = "setroutine"
+        rerun == \/ c.op \in {"setroutine", "setsr"}
                  \/ (c.op = "setstate" /\ e.changed)
                  \/ (c.op = "restart" /\ e.ok)
         errNow == status # 0 /\ inst[status].out # "ok"
         rerunR == rerun \/ (c.op = "setctx" /\ c.r /\ e.changed)
         \* the recorded status survives context changes unless they re-run an errored routine
         status2 == IF rerun \/ (c.op = "setctx" /\ c.r /\ c.c # 0 /\ e.changed /\ errNow) THEN 0 ELSE status
-        chid == IF c.op \in {"setroutine", "setstate"} THEN e.ch ELSE 0
+        chid == IF c.op \in {"setroutine", "setstate", "setsr"} THEN e.ch ELSE 0
         \* a restart / a restarting SetContext on an errored routine must be followed by an entry
         \* (unless the new instance already entered before the caller logged the return)
         enteredSince == \E i \in Insts : inst[i].eclk > c.cclk
@@ -188,11 +191,11 @@ PEnter(i, tag, key, dead) ==
     /\ bad' = bad
          \cup (IF i \in Insts THEN {"Harness"} ELSE {})
          \* C14: a routine that returned nil is not run again until RestartRoutine / a new routine or state
-         \cup (IF ~td /\ ~dead /\ prev # 0 /\ inst[prev].out = "ok" /\ credit < inst[prev].eclk /\ ~PendingRerun(FALSE)
+         \cup (IF ~td /\ ~cfg.burst /\ ~dead /\ prev # 0 /\ inst[prev].out = "ok" /\ credit < inst[prev].eclk /\ ~PendingRerun(FALSE)
                THEN {"RerunAfterSuccess"} ELSE {})
          \* C14: an errored routine is re-run only by RestartRoutine, SetContext(restart), a new
          \* routine/state or (with retry) after a backoff interval
-         \cup (IF ~td /\ ~dead /\ prev # 0 /\ inst[prev].out = "err" /\ creditR < inst[prev].eclk /\ ~PendingRerun(TRUE)
+         \cup (IF ~td /\ ~cfg.burst /\ ~dead /\ prev # 0 /\ inst[prev].out = "err" /\ creditR < inst[prev].eclk /\ ~PendingRerun(TRUE)
                   /\ ~(cfg.retry /\ now >= inst[prev].ltime + 10)
                THEN {"RerunAfterError"} ELSE {})
     /\ calls' = calls
@@ -274,8 +277,16 @@ QuietBad(live, active, blk, gstate) ==
               /\ (<<1, L>> \notin cbseen \/ <<2, L>> \notin cbseen)
           THEN {"ExitCbMissing"} ELSE {})
 
+\* after a free-running burst: only the survivor conditions of C05, with GetState() as the stored state
+BurstQuietBad(live, active, gstate) ==
+    (IF Cardinality(live) > 1 THEN {"LiveMany"} ELSE {})
+    \cup (IF live # {} /\ (pctx = 0 \/ gstate = 0) THEN {"LiveOrphan"} ELSE {})
+    \cup (IF \E i \in live : pctx # 0 /\ inst[i].tag # pctx THEN {"LiveStaleCtx"} ELSE {})
+    \cup (IF \E i \in live : gstate > 0 /\ inst[i].key # gstate THEN {"LiveStale"} ELSE {})
+    \cup (IF active # Active \/ ~(live \subseteq active) THEN {"Harness"} ELSE {})
+
 PQuiet(live, active, blk, gstate) ==
-    /\ bad' = bad \cup (IF td THEN {} ELSE QuietBad(live, active, blk, gstate))
+    /\ bad' = bad \cup (IF td THEN {} ELSE IF cfg.burst THEN BurstQuietBad(live, active, gstate) ELSE QuietBad(live, active, blk, gstate))
     /\ Tick
     /\ UNCHANGED <<cfg, now, pctx, prt, epoch, inst, calls, snapw, chs, credit, creditR, needEnter, ctxTouch, status, cbseen, boReset, td>>
 
